@@ -43,6 +43,21 @@ class _BudgetStop(BaseException):
     """Raised inside a Hypothesis test body to end generation when the wall budget is used up."""
 
 
+class _CaseCpuLimit(BaseException):
+    """Raised by the SIGPROF watchdog when one case has consumed CASE_CPU_LIMIT seconds of CPU time of its own process
+    (not wall clock: machine load or a suspended process cannot trigger it).  BaseException so that neither the property
+    code nor the code under test swallows it."""
+
+
+# A case normally costs between 1 ms and a few seconds of CPU.  Code under test that does not return (a Newton or fixed-point
+# loop without an iteration cap) would otherwise hang the whole check; past this limit the case is recorded as a finding.
+CASE_CPU_LIMIT = float(os.environ.get('VERIF_CASE_CPU_LIMIT', '60'))
+
+
+def _on_sigprof(signum, frame):
+    raise _CaseCpuLimit()
+
+
 # --------------------------------------------------------------------------
 # JSON helpers (floats are round-trip exact through repr; NaN/inf allowed)
 
@@ -163,8 +178,10 @@ class Ctx:
             return False, e
 
 
-def _innermost_pkg_frame(tb) -> str | None:
+def _innermost_pkg_frame(tb, anywhere=False) -> str | None:
     frames = traceback.extract_tb(tb)
+    if anywhere and frames and frames[-1].name == '_on_sigprof':
+        frames = frames[:-1]            # the watchdog's own handler frame sits on top of the interrupted code
     if not frames:
         return None
     last = frames[-1]
@@ -192,11 +209,27 @@ def run_case(mod, sub_name: str, case, in_hypothesis=False) -> Ctx:
     import numpy as np
     ctx = Ctx(sub_name, case, in_hypothesis)
     sub = mod.SUBCHECKS[sub_name]
+    import signal
+    import threading
+    watchdog = CASE_CPU_LIMIT > 0 and hasattr(signal, 'setitimer') and threading.current_thread() is threading.main_thread()
+    if watchdog:
+        signal.signal(signal.SIGPROF, _on_sigprof)
+        signal.setitimer(signal.ITIMER_PROF, CASE_CPU_LIMIT)
     try:
-        with warnings.catch_warnings():
-            warnings.simplefilter('ignore')
-            with np.errstate(all='ignore'):
-                sub.evaluate(case, ctx)
+        try:
+            with warnings.catch_warnings():
+                warnings.simplefilter('ignore')
+                with np.errstate(all='ignore'):
+                    sub.evaluate(case, ctx)
+        finally:
+            if watchdog:
+                signal.setitimer(signal.ITIMER_PROF, 0)
+    except _CaseCpuLimit as e:
+        where = _innermost_pkg_frame(e.__traceback__, anywhere=True)
+        if where is None:
+            raise HarnessError(f'{mod.PROPERTY}/{sub_name}: the harness itself used {CASE_CPU_LIMIT:.0f} s of CPU on one case\n'
+                               + ''.join(traceback.format_exception(e))[-3000:] + '\ncase=' + json.dumps(to_jsonable(case))[:2000]) from None
+        ctx.fail(f'no_return|cpu_limit@{where}', f'call into {where} had not returned after {CASE_CPU_LIMIT:.0f} s of CPU time on this case')
     except HarnessError:
         raise
     except Exception as e:
@@ -513,8 +546,18 @@ def run_property(prop: str, tier: str, seed: int, only_sub: str | None = None) -
         results = [shard_worker(jobs[0])]
     else:
         ctxmp = mp.get_context('spawn')
+        scale = max(1.0, float(os.environ.get('VERIF_SCALE', '1')))
+        total_budget = sum((sb.budget_quick if tier == 'quick' else sb.budget_thorough) for nm, sb in mod.SUBCHECKS.items()
+                           if not only_sub or nm == only_sub)*scale
         with ctxmp.Pool(min(nshards, os.cpu_count() or 1)) as pool:
-            results = pool.map(shard_worker, jobs, chunksize=1)
+            try:
+                # every shard stops generating at its wall budget and every case at its CPU limit; anything beyond that
+                # (code stuck inside a C call, a dead worker) is a harness error, never a verdict
+                results = pool.map_async(shard_worker, jobs, chunksize=1).get(timeout=total_budget*4 + 8*CASE_CPU_LIMIT + 600)
+            except mp.TimeoutError:
+                pool.terminate()
+                print(f'HARNESS-ERROR property={prop}: shards did not finish within 4x the budget plus the case CPU limit', file=sys.stderr)
+                return 2
     budget_hit = False
     per_sub: dict[str, int] = {}
     for r in results:
